@@ -58,6 +58,9 @@ CLAIMS = {
 }
 
 NA = {
+    "C01": "completeness (every added event has a verifying proof) needs contracts for the PROVER side - the audit-path visitor, the read sets of pruneToFind/pruneToFindConsistent, the hyper-tree prover (an operation-stack interpreter outside the verified subset) - and a cache model with updates to carry the store invariant from one insertion to the next; only the verifier side (C02) and the digest of a single insertion (C04) could be brought under contract, so no check decides C01 (DESIGN.md 0.3)",
+    "C03": "soundness of consistency proofs needs inductive read-set contracts over the two-target traversals (targetsList.Split/InsertSorted) and a lemma that frozen subtrees hash the same in every later version (DESIGN.md appendix A.6); these were designed but not built, so nothing decides the property; its request range check is proved under C11",
+    "C08": "restart equivalence needs a functional contract of the hyper tree's cache rebuild above the persisted tiles (operation-stack interpreter, outside the verified subset) and shutdown needs a release-what-you-acquired typestate over the RocksDB wrapper that was not built; the two clauses that were built (RebuildCache reads the tile table to its end and releases its reader) are proved under C09 (DESIGN.md 0.3)",
     "C06": "replica agreement quantifies over schedules/fault sequences of raft nodes on RocksDB; no sequential per-function contract within reach expresses it (DESIGN.md section 5)",
     "C10": "quantifies over interleavings of query goroutines with the apply path and data races; the contract verifier is sequential (DESIGN.md section 5)",
 }
